@@ -27,6 +27,13 @@ class Driver:
 
     def __init__(self, exe: Path | None = None) -> None:
         self.exe = exe or DRIVER
+        # `check` builds the driver before any family runs; if the binary is missing here it is
+        # being re-linked by a concurrent build of the same tree: wait for it instead of reporting
+        # a broken correspondence
+        import time as _t
+        t0 = _t.time()
+        while not self.exe.exists() and _t.time() - t0 < 180:
+            _t.sleep(1.0)
         if not self.exe.exists():
             raise RuntimeError(f"model driver not built: {self.exe}")
 
@@ -34,9 +41,18 @@ class Driver:
         if not lines:
             return []
         data = "\n".join(lines) + "\n"
-        p = subprocess.run(
-            [str(self.exe)], input=data, capture_output=True, text=True, timeout=timeout
-        )
+        import time as _t
+        for attempt in range(60):
+            try:
+                p = subprocess.run(
+                    [str(self.exe)], input=data, capture_output=True, text=True, timeout=timeout
+                )
+                break
+            except (FileNotFoundError, PermissionError, OSError):
+                # binary replaced by a concurrent re-link
+                if attempt == 59:
+                    raise
+                _t.sleep(2.0)
         if p.returncode != 0:
             raise RuntimeError(f"model driver failed rc={p.returncode}: {p.stderr[:500]}")
         out = p.stdout.split("\n")
